@@ -6,4 +6,7 @@ git diff --quiet || { echo "repo dirty"; exit 3; }
 git apply "$D" || { echo "PATCH DOES NOT APPLY"; exit 3; }
 cd /verif && ./check "$P" 2>&1 | grep -E "VIOLATION|UNDECIDED|KNOWN|CHECK-ERROR|tier=" | cut -c1-260 | head -12
 echo "exit=${PIPESTATUS[0]}"
-git -C /repo checkout -- . 
+git -C /repo checkout -- .
+# the run above rewrote evidence/<ID>.json from the changed tree: put the committed record back
+git -C /verif checkout -- evidence/$P.json 2>/dev/null
+
